@@ -173,6 +173,7 @@ def _authenticate(req: Any) -> Any:
 
 _APPS: dict[tuple[str, bytes], Any] = {}
 _READY = False
+_CTX: Ctx | None = None
 
 
 def prepare() -> None:
@@ -317,6 +318,11 @@ def start_flow(app: Any, prefix: str, path: str, query: str) -> tuple[Resp, str 
     loc = r1.get("location") or ""
     if r1.status == 302 and loc.startswith(AUTHZ + "?"):
         q = parse_qs(urlsplit(loc).query)
+        want = f"http://{SVC_HOST}{prefix}/_oauth/callback"
+        if q.get("redirect_uri") != [want] and _CTX is not None:
+            # the authorization server sends the code (and the browser) to redirect_uri: it must be the configured callback
+            _CTX.fail("authorize-redirect:redirect-uri", f"authorization redirect for {path!r}?{query!r} carries redirect_uri {q.get('redirect_uri')} instead of {want!r}",
+                      {"part": "P", "prefix": prefix, "path": path, "query": query})
         return r1, q.get("state", [None])[0], session_cookie(r1)
     return r1, None, None
 
@@ -524,6 +530,16 @@ def run_misc(ctx: Ctx, j: Judge) -> None:
                 rep = {"part": "L", "prefix": prefix, "query": query, "cookie": cookie}
                 cls = j.location("logout", "logout", r, path, prefix, query, rep) if 300 <= r.status < 400 else str(r.status)
                 ctx.case(nontrivial="logout:" + cls, outcome=("logout", r.status, cls))
+        # hostile Host / forwarding headers must not move the redirect_uri the authorization server will use
+        for host, hdrs in (("evil.example", {}), (SVC_HOST, {"X-Forwarded-Host": "evil.example"}), ("evil.example", {"X-Forwarded-Host": "evil.example", "Forwarded": "host=evil.example"})):
+            r = call(app, "GET", prefix + "/describe", headers={"Accept": "text/html", **hdrs}, host=host)
+            loc = r.get("location") or ""
+            rep = {"part": "L", "prefix": prefix, "host": host, "headers": hdrs}
+            want = f"http://{SVC_HOST}{prefix}/_oauth/callback"
+            got = parse_qs(urlsplit(loc).query).get("redirect_uri") if loc.startswith(AUTHZ + "?") else None
+            if r.status == 302 and got != [want]:
+                ctx.fail("authorize-redirect:redirect-uri", f"Host {host!r} {hdrs}: authorization redirect {loc[:200]!r} carries redirect_uri {got} instead of {want!r}", rep)
+            ctx.case(nontrivial="authz-host:" + ("302" if r.status == 302 else str(r.status)), outcome=("authz", r.status, host == SVC_HOST, len(hdrs)))
         for q in ("error=access_denied&error_description=" + quote("<script>//evil.example</script>"), "code=x", "state=y", ""):
             EXCHANGES.clear()
             r = call(app, "GET", prefix + "/_oauth/callback", query=q, headers={"Accept": "text/html"}, host=SVC_HOST)
@@ -535,7 +551,9 @@ def run_misc(ctx: Ctx, j: Judge) -> None:
 
 # ------------------------------------------------------------------------------------------- driver
 def run(ctx: Ctx) -> None:
+    global _CTX
     prepare()
+    _CTX = ctx
     j = Judge(ctx)
     ctx.extra.update({"return_to_strings": 0, "request_paths": 0, "cookie_cases": 0, "wsgi_requests_estimate": 0, "locations_with_crlf": 0})
     n = 0
@@ -575,7 +593,9 @@ def run(ctx: Ctx) -> None:
 
 
 def replay(ctx: Ctx, case: dict[str, Any]) -> None:
+    global _CTX
     prepare()
+    _CTX = ctx
     j = Judge(ctx)
     if case["part"] == "R":
         run_return_to(ctx, j, case["prefix"], case["s"])
